@@ -36,6 +36,8 @@
  *      (uri.path and pathinfo are "-" when the request head was rejected by the parser)
  * The document root ($LTV_C03_ROOT/docroot) and the user file ($LTV_C03_ROOT/users.txt) are
  * prepared by the check module; this harness only writes its configuration file there.
+ *   utf8 <hex>   data_config_pcre_compile("x*") + config_pcre_match() on the subject: does a
+ *                condition regex (PCRE2_UTF) see the subject at all?       -> 0 | 1
  *   pton <hex>   sock_addr_inet_pton(AF_INET, then AF_INET6)  -> "4 <addr>" | "6 <addr>" | none
  *   gai  <hex>   sock_addr_from_str_numeric()                 -> same
  */
@@ -598,6 +600,21 @@ int main(void) {
             else if (ok && sa.plain.sa_family == AF_INET6) { fputs("6 ", stdout); ltv_puthex(&sa.ipv6.sin6_addr, 16); fputc('\n', stdout); }
             else puts("none");
             free(v);
+        }
+        else if (0 == strcmp(op, "utf8") && ltv_ntok == 2) {
+            static data_config *dc;
+            if (NULL == dc) {
+                dc = data_config_init();
+                buffer_copy_string_len(&dc->string, CONST_STR_LEN("x*"));
+                if (!data_config_pcre_compile(dc, 0, errh)) { puts("pcre-error"); continue; }
+              #ifdef HAVE_PCRE2_H
+                dc->match_data = pcre2_match_data_create(10, NULL);
+              #endif
+            }
+            buffer *b = hexbuf(ltv_tok[1]);
+            static request_st rr;
+            printf("%d\n", config_pcre_match(&rr, dc, b) > 0);
+            buffer_free(b);
         }
         else if (0 == strcmp(op, "xfa")) op_xfa();
         else if (0 == strcmp(op, "trust")) op_trust();
